@@ -22,18 +22,19 @@ theorem srt_neg_err (a : Int) (h : a < 0) : bnSrt a = none := Relic.Lemmas.NtMod
 
 /-! ## bn_mod_pre_barrt + bn_mod_barrt -/
 
-/-- Barrett reduction as coded (early exit, long-operand fallback, truncated difference with wrap-around, correction loop), with the
-    reciprocal of bn_mod_pre_barrt: for every a ≥ 0 and m > 0 (any digit width w ≥ 2) the result is a mod m. -/
-theorem mod_barrt_exact (w : Nat) (hw : 2 ≤ w) (a m : Int) (hm : 0 < m) (ha : 0 ≤ a) :
-    ∃ p, modBarrtFull w a m = some (a % m, p) := by
-  obtain ⟨p, h, _⟩ := Relic.Lemmas.NtMod.modBarrtFull_nonneg w hw a m hm ha
-  exact ⟨p, h⟩
+/-- Barrett reduction as coded after fix 060ee71 (early exit with `+ m` for a negative operand, long-operand fallback, truncated
+    difference with wrap-around, correction loop, `m − r` for a negative operand unless r = 0), with the reciprocal of
+    bn_mod_pre_barrt: for EVERY integer a and every m > 0 (any digit width w ≥ 2) the result is a mod m, in [0, m). -/
+theorem mod_barrt_exact (w : Nat) (hw : 2 ≤ w) (a m : Int) (hm : 0 < m) :
+    ∃ p, modBarrtFull w a m = some (a % m, p) ∧ 0 ≤ a % m ∧ a % m < m := by
+  obtain ⟨p, h, _⟩ := Relic.Lemmas.NtMod.modBarrtFull_spec w hw a m hm
+  exact ⟨p, h, Int.emod_nonneg _ (ne_of_gt hm), Int.emod_lt_of_pos _ hm⟩
 
 /-- the correction loop `while (t >= m) t -= m` of bn_mod_barrt runs at most twice (q3 ≤ q ≤ q3 + 2), and the supplied fuel is
-    never exhausted -/
-theorem mod_barrt_corrections_le (w : Nat) (hw : 2 ≤ w) (a m : Int) (hm : 0 < m) (ha : 0 ≤ a) (wr : Bool) (n : Nat) (v : Int)
+    never exhausted — for every integer a -/
+theorem mod_barrt_corrections_le (w : Nat) (hw : 2 ≤ w) (a m : Int) (hm : 0 < m) (wr : Bool) (n : Nat) (v : Int)
     (h : modBarrtFull w a m = some (v, BarrtPath.main wr n)) : n ≤ 2 := by
-  obtain ⟨p, h', hn⟩ := Relic.Lemmas.NtMod.modBarrtFull_nonneg w hw a m hm ha
+  obtain ⟨p, h', hn⟩ := Relic.Lemmas.NtMod.modBarrtFull_spec w hw a m hm
   rw [h'] at h
   injection h with h
   injection h with _ hp
@@ -45,7 +46,8 @@ theorem mod_barrt_core (w k : Nat) (hw : 2 ≤ w) (hk : 1 ≤ k) (c m : Int)
     (barrtCore w k c m ((2 : Int) ^ (2 * k * w) / m)).1 = c % m ∧ (barrtCore w k c m ((2 : Int) ^ (2 * k * w) / m)).2.2 ≤ 2 :=
   Relic.Lemmas.NtMod.barrtCore_spec w k hw hk c m hm1 hm2 hc1 hc2
 
-example : ∃ p, modBarrtFull 8 1000 7 = some (1000 % 7, p) := mod_barrt_exact 8 (by omega) 1000 7 (by omega) (by omega)
+example : ∃ p, modBarrtFull 8 1000 7 = some (1000 % 7, p) ∧ (0 : Int) ≤ 1000 % 7 ∧ (1000 : Int) % 7 < 7 := mod_barrt_exact 8 (by omega) 1000 7 (by omega)
+example : (modBarrtFull 8 (-5) 5).map (·.1) = some 0 ∧ (modBarrtFull 8 (-3) 5).map (·.1) = some 2 := by decide
 
 /-! ## bn_mod_pre_monty, bn_mod_monty_basic / _comba, bn_mod_monty_back, bn_mod_monty_conv -/
 
@@ -92,19 +94,21 @@ example : ∃ u, preMonty 8 7 = some u ∧ 0 ≤ u ∧ u < (2 : Int) ^ 8 ∧ (u 
 
 /-! ## bn_mod_pre_pmers + bn_mod_pmers -/
 
-/-- pseudo-Mersenne reduction as coded, for EVERY modulus m > 0 (u = 2^bits(m) - m ≤ 2^(bits-1), so the folding loop halves q in every
-    round and ends within the bitLen(q) + 1 rounds the model supplies): a ≥ 0 gives a mod m -/
-theorem mod_pmers_exact (a m : Int) (hm : 0 < m) (ha : 0 ≤ a) : ∃ r n, modPmersFull a m = some (a % m, r, n) := by
+/-- pseudo-Mersenne reduction as coded after fix 060ee71, for EVERY integer a and EVERY modulus m > 0 (u = 2^bits(m) - m ≤ 2^(bits-1),
+    so the folding loop halves q in every round and ends within the bitLen(q) + 1 rounds the model supplies): the result is a mod m, in [0, m) -/
+theorem mod_pmers_exact (a m : Int) (hm : 0 < m) : ∃ r n, modPmersFull a m = some (a % m, r, n) ∧ 0 ≤ a % m ∧ a % m < m := by
   obtain ⟨r, n, h⟩ := Relic.Lemmas.NtMod.modPmersFull_spec a m hm
-  have : ¬ a < 0 := not_lt.mpr ha
-  simp only [this, if_false] at h
+  exact ⟨r, n, h, Int.emod_nonneg _ (ne_of_gt hm), Int.emod_lt_of_pos _ hm⟩
+
+/-- the negative case spelled out (the defect C09-ext-mod-1 is repaired: `m − c` is skipped when c = 0): for a < 0 the value is
+    0 when m | a and m − ((−a) mod m) otherwise — which is a mod m -/
+theorem mod_pmers_neg (a m : Int) (hm : 0 < m) (_ha : a < 0) :
+    ∃ r n, modPmersFull a m = some ((if (-a) % m = 0 then 0 else m - (-a) % m), r, n) := by
+  obtain ⟨r, n, h⟩ := Relic.Lemmas.NtMod.modPmersFull_spec a m hm
+  rw [Relic.Lemmas.NtMod.neg_residue a m hm] at h
   exact ⟨r, n, h⟩
 
-/-- what the code returns for a < 0: m - ((-a) mod m) — the residue unless m | a, where it is m itself (findings/C09-ext-mod-1) -/
-theorem mod_pmers_neg (a m : Int) (hm : 0 < m) (ha : a < 0) : ∃ r n, modPmersFull a m = some (m - (-a) % m, r, n) := by
-  obtain ⟨r, n, h⟩ := Relic.Lemmas.NtMod.modPmersFull_spec a m hm
-  simp only [ha, if_true] at h
-  exact ⟨r, n, h⟩
+example : (modPmersFull (-7) 7).map (·.1) = some 0 ∧ (modPmersFull (-5) 7).map (·.1) = some 2 := by decide
 
 /-- the folding loop terminates (never `none`) for every modulus and operand -/
 theorem mod_pmers_fold_terminates (a m : Int) (hm : 0 < m) : (modPmersFull a m).isSome = true := by
